@@ -5,3 +5,4 @@ import IsalVerif.Lemmas.Pad
 import IsalVerif.Lemmas.Settle
 import IsalVerif.Lemmas.MgrInv
 import IsalVerif.Lemmas.Resubmit
+import IsalVerif.Props.C01
